@@ -86,9 +86,15 @@ def rule_extrapolate(ctx: Ctx) -> RuleResult:
                       f.relpath, nd[0].node and g.lineno)
     # the key is the last key of the prefix, the template the joined prefix; walk from longest to shortest
     inner = [n for n in ast.walk(ol) if isinstance(n, ast.For) and n is not ol]
-    walk_ok = len(inner) == 1 and "reversed(parts)" in norm(inner[0].iter)
     td = flow.defs_reaching(at.id, tmpl_var)
-    tmpl_ok = len(td) == 1 and td[0].value is not None and norm(td[0].value) == "'/'.join(parts[:len(parts) - i])"
+    tv = norm(td[0].value) if len(td) == 1 and td[0].value is not None else ""
+    it = norm(inner[0].iter) if len(inner) == 1 else ""
+    lv = norm(inner[0].target) if len(inner) == 1 else ""
+    # the two spellings of "prefixes from longest to shortest"
+    form_a = "reversed(parts)" in it and tv == "'/'.join(parts[:len(parts) - i])"
+    form_b = it == "range(len(parts), 0, -1)" and tv == f"'/'.join(parts[:{lv}])"
+    walk_ok = form_a or form_b
+    tmpl_ok = walk_ok
     parts_d = [d for d in flow.all_defs if d.var == "parts" and d.value is not None]
     parts_ok = bool(parts_d) and norm(parts_d[0].value) == f"{pvar}.split('/')[:-1]"
     if walk_ok and tmpl_ok and parts_ok:
@@ -153,18 +159,27 @@ def rule_sel(ctx: Ctx) -> RuleResult:
         res.violation([PR, "replacement"], "pattern_replacing has not exactly one textual replacement on the template", f.relpath, ol.lineno)
         return res
     r = repl[0]
-    tests = ctx.ef._dominating_tests(cfg, r)
-    sel = [t for t, lab in tests if lab == "true" and isinstance(t, ast.Compare) and isinstance(t.ops[0], ast.In) and norm(t.comparators[0]) == tvar]
+    from ..shape import facts_at
+
+    facts = facts_at(ctx, f, r)
+    sel = [t for t, truth in facts if truth and t.endswith(f" in {tvar}")]
+    ok = False
     if sel:
-        m = norm(sel[0].left)
-        # the selector variable iterates the key_patterns of this call, inside the per-template loop
-        loops = [n for n in ast.walk(ol) if isinstance(n, ast.For) and norm(n.target) == m]
-        ok = bool(loops) and kp_p in norm(loops[0].iter)
-        pairs = [n for n in ast.walk(ol) if isinstance(n, ast.For) and isinstance(n.target, ast.Tuple) and kp_p in norm(n.iter) and m in norm(n.iter)]
-        if ok and pairs and [norm(a) for a in r.args] == [norm(x) for x in pairs[0].target.elts]:
-            res.ok("R-SEL replacement", f"template.replace(find, replace) only under `{norm(sel[0])}`, evaluated for every type and every selector")
-        else:
-            res.violation([PR, "selector loop"], "pattern_replacing does not apply the find/replace pairs of each matching selector", f.relpath, r.lineno)
+        m = sel[0][: -len(f" in {tvar}")]
+        # the selector iterates the key_patterns of this call, inside the per-template loop, for every type anew
+        sel_loops = [n for n in ast.walk(ol) if isinstance(n, ast.For) and kp_p in norm(n.iter) and (
+            norm(n.target) == m or (isinstance(n.target, ast.Tuple) and norm(n.target.elts[0]) == m))]
+        pair_loops = [n for n in ast.walk(ol) if isinstance(n, ast.For) and isinstance(n.target, ast.Tuple)
+                      and [norm(a) for a in r.args] == [norm(x_) for x_ in n.target.elts] and any(x_ is r for x_ in ast.walk(n))]
+        if sel_loops and pair_loops:
+            it = norm(pair_loops[0].iter)
+            second = norm(sel_loops[0].target.elts[1]) if isinstance(sel_loops[0].target, ast.Tuple) else None
+            if (kp_p in it and m in it) or (second and it == f"{second}.items()"):
+                ok = True
+    if ok:
+        res.ok("R-SEL replacement", f"template.replace(find, replace) only when `{sel[0]}`, evaluated for every type and every selector")
+    elif sel:
+        res.violation([PR, "selector loop"], "pattern_replacing does not apply the find/replace pairs of each matching selector", f.relpath, r.lineno)
     else:
         res.violation([PR, "selector test"], f"pattern_replacing rewrites a template without testing the selector against that type's own name "
                                              f"(`<selector> in {tvar}`): types the selector does not match are rewritten, or matching ones skipped",
